@@ -115,13 +115,419 @@ Proof.
   set (c2 := String.eqb call "is_instance" || String.eqb call "keys_is_instance").
   destruct (List.length toks =? 3)%nat; cbn [andb].
   - destruct (class_pre T k0 pre) as [k|e].
-    + destruct (find_ctor T k call) as [ct|]; destruct (String.eqb pre "dtype"); destruct c2;
-        cbn [run_head conv bind]; try reflexivity;
-        destruct (convert_types X v) as [v1|e1]; cbn [bind]; try reflexivity;
-        destruct (convert_types X v1) as [v2|e2]; reflexivity.
+    + destruct (find_ctor T k call) as [ct|] eqn:Ec; destruct (String.eqb pre "dtype"); destruct c2;
+        cbn [run_head conv bind]; rewrite ?Ec; try reflexivity;
+        repeat (match goal with |- context [convert_types X ?a] => destruct (convert_types X a) end;
+                cbn [bind]; rewrite ?Ec);
+        reflexivity.
     + destruct (String.eqb pre "dtype"); cbn [run_head conv bind]; try reflexivity;
         destruct (convert_types X v) as [v1|e1]; reflexivity.
   - cbn [bind].
     destruct (find_ctor T k0 call) as [ct|]; destruct c2; cbn [run_head conv bind]; try reflexivity;
       destruct (convert_types X v) as [v1|e1]; reflexivity.
+Qed.
+
+(* a one-key mapping whose key is not an operator is a leaf spec *)
+Lemma cond1_leaf k v :
+  assoc_str k (sx_binops X) = None ->
+  cond1_from_spec T X (VDict [(VStr k, v)]) = run_head (head_of (lower_tokens k)) v.
+Proof.
+  intros H. rewrite cond1_unfold, (self1_S 39), step1_leaf by exact H. apply parse_leaf_head.
+Qed.
+
+(* ================================================================== *)
+(* 3. letter case, aliases, type names (ARBITRARY argument values)      *)
+
+Theorem C09_case : forall k k' v,
+  lower_tokens k = lower_tokens k' ->
+  assoc_str k (sx_binops X) = None -> assoc_str k' (sx_binops X) = None ->
+  cond1_from_spec T X (VDict [(VStr k, v)]) = cond1_from_spec T X (VDict [(VStr k', v)]).
+Proof.
+  intros k k' v Ht Hk Hk'. rewrite !cond1_leaf by assumption. rewrite Ht. reflexivity.
+Qed.
+
+(* the key tokens with the two alias tables applied; keys of the wrong length are all alike *)
+Definition canon_tokens (toks : list string) : list string :=
+  match toks with
+  | [d; m] => [d; look (sx_callable_lookup X) m]
+  | [d; p; m] => [d; look (sx_preproc_lookup X) p; look (sx_callable_lookup X) m]
+  | _ => []
+  end.
+
+Lemma assoc_str_In {Y} k (l : list (string * Y)) q : assoc_str k l = Some q -> In (k, q) l.
+Proof.
+  induction l as [|[a x] l IH]; cbn [assoc_str]; [discriminate|].
+  destruct (String.eqb a k) eqn:E.
+  - apply String.eqb_eq in E. subst a. intros [= ->]. left. reflexivity.
+  - intros H. right. exact (IH H).
+Qed.
+
+Lemma look_idem l :
+  forallb (fun kv => String.eqb (look l (snd kv)) (snd kv)) l = true ->
+  forall p, look l (look l p) = look l p.
+Proof.
+  intros H p. unfold look at 2 3. destruct (assoc_str p l) as [q|] eqn:E.
+  - apply assoc_str_In in E. rewrite forallb_forall in H. specialize (H _ E).
+    cbn [snd] in H. apply String.eqb_eq in H. exact H.
+  - unfold look. rewrite E. reflexivity.
+Qed.
+
+Lemma look_pre_idem p : look (sx_preproc_lookup X) (look (sx_preproc_lookup X) p) = look (sx_preproc_lookup X) p.
+Proof. apply look_idem. vm_compute. reflexivity. Qed.
+
+Lemma look_call_idem p : look (sx_callable_lookup X) (look (sx_callable_lookup X) p) = look (sx_callable_lookup X) p.
+Proof. apply look_idem. vm_compute. reflexivity. Qed.
+
+Definition is_pre_token (m : string) : bool := existsb (fun p => String.eqb (fst p) m) (sx_preproc_lookup X).
+
+Lemma is_pre_token_look m : is_pre_token (look (sx_callable_lookup X) m) = is_pre_token m.
+Proof.
+  unfold look. destruct (assoc_str m (sx_callable_lookup X)) as [q|] eqn:E; [|reflexivity].
+  apply assoc_str_In in E.
+  assert (H : forallb (fun kv => Bool.eqb (is_pre_token (snd kv)) (is_pre_token (fst kv))) (sx_callable_lookup X) = true)
+    by (vm_compute; reflexivity).
+  rewrite forallb_forall in H. specialize (H _ E). cbn [fst snd] in H. apply Bool.eqb_prop in H. exact H.
+Qed.
+
+Lemma head_of_nil : head_of [] = HBad.
+Proof. vm_compute. reflexivity. Qed.
+
+Lemma head_of_canon toks : head_of toks = head_of (canon_tokens toks).
+Proof.
+  destruct toks as [|d [|m [|m2 [|x r]]]]; cbn [canon_tokens]; try reflexivity.
+  - rewrite head_of_nil. unfold head_of. cbn [List.length hd Nat.eqb negb orb].
+    destruct (assoc_str d (sx_datum_types X)); reflexivity.
+  - unfold head_of. cbn [List.length hd last nth Nat.eqb negb orb andb].
+    fold (is_pre_token m). fold (is_pre_token (look (sx_callable_lookup X) m)).
+    rewrite is_pre_token_look, look_call_idem. reflexivity.
+  - unfold head_of. cbn [List.length hd last nth Nat.eqb negb orb andb].
+    rewrite look_pre_idem, look_call_idem. reflexivity.
+  - rewrite head_of_nil. unfold head_of. cbn [List.length hd Nat.eqb negb orb].
+    destruct (assoc_str d (sx_datum_types X)); reflexivity.
+Qed.
+
+(* parse_leaf depends on the key only through its canonical tokens *)
+Theorem C09_aliases : forall k k' v,
+  canon_tokens (lower_tokens k) = canon_tokens (lower_tokens k') ->
+  assoc_str k (sx_binops X) = None -> assoc_str k' (sx_binops X) = None ->
+  cond1_from_spec T X (VDict [(VStr k, v)]) = cond1_from_spec T X (VDict [(VStr k', v)]).
+Proof.
+  intros k k' v Ht Hk Hk'. rewrite !cond1_leaf by assumption.
+  rewrite (head_of_canon (lower_tokens k)), (head_of_canon (lower_tokens k')), Ht. reflexivity.
+Qed.
+
+(* str.split on a string with a separator in it *)
+Lemma str_split_aux_app sep a b : forall cur,
+  str_split_aux sep (a ++ String sep b) cur = str_split_aux sep a cur ++ str_split_aux sep b "".
+Proof.
+  induction a as [|c r IH]; intros cur; cbn [append str_split_aux].
+  - rewrite Ascii.eqb_refl. reflexivity.
+  - destruct (Ascii.eqb c sep); [rewrite IH; reflexivity|apply IH].
+Qed.
+
+Lemma str_split_aux_nonnil sep s : forall cur, str_split_aux sep s cur <> [].
+Proof.
+  induction s as [|c r IH]; intros cur; cbn [str_split_aux]; [discriminate|].
+  destruct (Ascii.eqb c sep); [discriminate|apply IH].
+Qed.
+
+Lemma lower_tokens_app a b : lower_tokens (a ++ String "."%char b) = lower_tokens a ++ lower_tokens b.
+Proof. unfold lower_tokens, str_split. rewrite str_split_aux_app, map_app. reflexivity. Qed.
+
+Lemma lower_tokens_nonnil s : lower_tokens s <> [].
+Proof.
+  unfold lower_tokens, str_split. pose proof (str_split_aux_nonnil "."%char s "") as H.
+  destruct (str_split_aux "."%char s ""); [contradiction|discriminate].
+Qed.
+
+Definition datum_token (d : string) : Prop := d = "value" \/ d = "key" \/ d = "index".
+
+Lemma datum_not_binop d p m : datum_token d -> assoc_str (d ++ String "."%char (p ++ String "."%char m)) (sx_binops X) = None.
+Proof. intros [-> | [-> | ->]]; reflexivity. Qed.
+
+Lemma alias_pre d p p' m v :
+  datum_token d -> look (sx_preproc_lookup X) (str_lower p) = look (sx_preproc_lookup X) (str_lower p') ->
+  lower_tokens p = [str_lower p] -> lower_tokens p' = [str_lower p'] ->
+  cond1_from_spec T X (VDict [(VStr (d ++ String "."%char (p ++ String "."%char m)), v)]) =
+  cond1_from_spec T X (VDict [(VStr (d ++ String "."%char (p' ++ String "."%char m)), v)]).
+Proof.
+  intros Hd Hp Tp Tp'. apply C09_aliases; try (apply datum_not_binop; exact Hd).
+  rewrite !lower_tokens_app, Tp, Tp'.
+  assert (Td : lower_tokens d = [d]) by (destruct Hd as [-> | [-> | ->]]; reflexivity).
+  rewrite Td. cbn [app].
+  pose proof (lower_tokens_nonnil m) as Hm.
+  destruct (lower_tokens m) as [|x [|y r]]; [contradiction| |reflexivity].
+  cbn [canon_tokens]. rewrite Hp. reflexivity.
+Qed.
+
+(* "type" / "dtype" and "len" / "length" are the same pre-processor, whatever follows *)
+Theorem C09_alias_type : forall d m v, datum_token d ->
+  cond1_from_spec T X (VDict [(VStr (d ++ ".type." ++ m), v)]) =
+  cond1_from_spec T X (VDict [(VStr (d ++ ".dtype." ++ m), v)]).
+Proof. intros d m v Hd. exact (alias_pre d "type" "dtype" m v Hd eq_refl eq_refl eq_refl). Qed.
+
+Theorem C09_alias_len : forall d m v, datum_token d ->
+  cond1_from_spec T X (VDict [(VStr (d ++ ".len." ++ m), v)]) =
+  cond1_from_spec T X (VDict [(VStr (d ++ ".length." ++ m), v)]).
+Proof. intros d m v Hd. exact (alias_pre d "len" "length" m v Hd eq_refl eq_refl eq_refl). Qed.
+
+(* "in" / "in_" are the same callable on every class *)
+Theorem C09_alias_in : forall c v,
+  cond1_from_spec T X (VDict [(VStr (scls_label c ++ ".in"), v)]) =
+  cond1_from_spec T X (VDict [(VStr (scls_label c ++ ".in_"), v)]).
+Proof.
+  intros c v. apply C09_aliases; destruct c; reflexivity.
+Qed.
+
+(* type names in any letter case, and type objects, convert to the same type *)
+Theorem C09_type_names : forall n t,
+  assoc_str (str_lower n) (sx_dtype_names X) = Some t -> to_type X (VStr n) = Ok (VType t).
+Proof. intros n t H. unfold to_type. rewrite H. reflexivity. Qed.
+
+Lemma to_type_known v : is_known_type v = true -> to_type X v = Ok v.
+Proof.
+  destruct v as [| | | | | | | |t|]; try discriminate. destruct t; try discriminate; reflexivity.
+Qed.
+
+Theorem C09_type_objects : forall t, is_known_type (VType t) = true -> to_type X (VType t) = Ok (VType t).
+Proof. intros t H. exact (to_type_known _ H). Qed.
+
+Theorem C09_type_name_or_object : forall n t,
+  is_known_type (VType t) = true -> assoc_str (str_lower n) (sx_dtype_names X) = Some t ->
+  to_type X (VStr n) = to_type X (VType t).
+Proof. intros n t Hk Hn. rewrite (C09_type_names n t Hn), (C09_type_objects t Hk). reflexivity. Qed.
+
+(* every known type has a name, e.g. its own *)
+Example type_name_cases :
+  map (to_type X) [VStr "INT"; VStr "Float"; VStr "str"; VStr "List"; VStr "MAP"; VStr "dict"; VStr "Bool"; VStr "path"]
+  = map (fun t => Ok (VType t)) [TInt; TFloat; TStr; TList; TDict; TDict; TBool; TPath].
+Proof. vm_compute. reflexivity. Qed.
+
+(* ================================================================== *)
+(* 1. leaves                                                            *)
+
+(* ---- closed facts about the key of a canonical leaf spec ---- *)
+
+Definition typed (c : scls) : bool := match scls_pre c with PType => true | _ => false end.
+Definition q_is_inst (q : dsl) : bool :=
+  match q with Q_is_instance _ | Q_keys_is_instance _ => true | _ => false end.
+
+Definition dummy_class : cclass :=
+  {| k_name := ""; k_kind := DValue; k_pre := PNone; k_general := false; k_map := false; k_label := "";
+     k_length := None; k_dtype := None |}.
+Definition dummy_ctor : ctor :=
+  {| c_name := ""; c_params := []; c_vararg := None; c_kwarg := None; c_target := ""; c_store := [] |}.
+
+Definition scls_class (c : scls) : cclass :=
+  match find_class (t_classes T) (scls_name c) with Some k => k | None => dummy_class end.
+Definition q_ctor (c : scls) (q : dsl) : ctor :=
+  match find_ctor T (scls_class c) (q_method q) with Some ct => ct | None => dummy_ctor end.
+
+Definition leaf_key (c : scls) (q : dsl) : string := scls_label c ++ "." ++ q_method q.
+
+Lemma leaf_key_not_binop c q : assoc_str (leaf_key c q) (sx_binops X) = None.
+Proof. destruct c; reflexivity. Qed.
+
+Lemma scls_class_name c : k_name (scls_class c) = scls_name c.
+Proof. destruct c; reflexivity. Qed.
+
+(* the key of the canonical spelling selects the class, the callable and the constructor of the
+   DSL call, and asks for a type conversion exactly under `dtype` / for `(keys_)is_instance` *)
+Lemma head_leaf c q : class_ok c q = true ->
+  head_of (lower_tokens (leaf_key c q)) = HGood (scls_class c) (typed c) (q_method q) (q_is_inst q) (q_ctor c q).
+Proof.
+  intros H. destruct c; destruct q; try discriminate H; vm_compute; reflexivity.
+Qed.
+
+(* which of the five argument shapes: (number of named parameters, *args, **kwargs) *)
+Definition ctor_shape (ct : ctor) : nat * bool * bool :=
+  (List.length (c_params ct),
+   match c_vararg ct with Some _ => true | None => false end,
+   match c_kwarg ct with Some _ => true | None => false end).
+
+Definition dispatch_by (sh : nat * bool * bool) (v : coerced) : res (list arg1 * list (string * arg1)) :=
+  let '(npk, va, kw) := sh in
+  if (npk =? 0)%nat && negb va && negb kw then Ok ([], [])
+  else if (npk =? 1)%nat && negb va && negb kw then Ok ([coerced_val arg1 ALit (APath 0%N) inert0 v], [])
+  else if (1 <? npk)%nat && negb va && negb kw then
+    match v with
+    | CDict items => let* k := kw_of arg1 ALit (APath 0%N) items in Ok ([], k)
+    | CSeq _ items => Ok (map (item_arg arg1 ALit (APath 0%N)) items, [])
+    | _ => Err MalformedCond
+    end
+  else if va && (npk =? 0)%nat && negb kw then
+    match v with
+    | CSeq false items => Ok (map (item_arg arg1 ALit (APath 0%N)) items, [])
+    | _ => Err MalformedCond
+    end
+  else if kw && negb va then
+    match v with
+    | CDict items => let* k := kw_of arg1 ALit (APath 0%N) items in Ok ([], k)
+    | _ => Err MalformedCond
+    end
+  else Err MalformedCond.
+
+Lemma dispatch_shape ct cv raw : dispatch1 ct cv raw = dispatch_by (ctor_shape ct) cv.
+Proof. reflexivity. Qed.
+
+Definition q_shape (q : dsl) : nat * bool * bool :=
+  match q with
+  | Q_truthy | Q_falsy | Q_null => (0, false, false)
+  | Q_equal_to _ | Q_not_equal_to _ | Q_less_than _ | Q_greater_than _ | Q_less_than_or_equal_to _
+  | Q_greater_than_or_equal_to _ | Q_in _ | Q_not_in _ | Q_factor_of _ | Q_has_factor _ | Q_keys_contain _
+  | Q_keys_contain_at_least_one_of _ | Q_keys_contain_at_most_one_of _ => (1, false, false)
+  | Q_in_range _ _ | Q_not_in_range _ _ | Q_equal_to_approx _ _ | Q_keys_contain_N_of _ _
+  | Q_keys_contain_at_least_N_of _ _ | Q_keys_contain_at_most_N_of _ _ => (2, false, false)
+  | Q_items_contain _ => (0, false, true)
+  | _ => (0, true, false)
+  end%nat.
+
+Lemma q_ctor_shape c q : class_ok c q = true -> ctor_shape (q_ctor c q) = q_shape q.
+Proof.
+  intros H. destruct c; destruct q; try discriminate H; vm_compute; reflexivity.
+Qed.
+
+(* ---- type conversion is the identity on the known types ---- *)
+
+Lemma mapM_to_type_known l : forallb is_known_type l = true -> mapM (to_type X) l = Ok l.
+Proof.
+  induction l as [|v l IH]; cbn [forallb mapM]; [reflexivity|].
+  intros H. apply andb_true_iff in H as [Hv Hl]. rewrite (to_type_known v Hv), (IH Hl). reflexivity.
+Qed.
+
+Lemma convert_types_list l : forallb is_known_type l = true -> convert_types X (VList l) = Ok (VList l).
+Proof. intros H. unfold convert_types. rewrite (mapM_to_type_known l H). reflexivity. Qed.
+
+Lemma convert_types_ok v : types_only v = true -> convert_types X v = Ok v.
+Proof.
+  destruct v; try discriminate; intros H.
+  - apply convert_types_list. exact H.
+  - exact (to_type_known _ H).
+Qed.
+
+Lemma conv_ok c q : q_types_ok c q = true ->
+  conv (typed c) (q_spec_val q) = Ok (q_spec_val q) /\ conv (q_is_inst q) (q_spec_val q) = Ok (q_spec_val q).
+Proof.
+  unfold q_types_ok. fold (typed c). intros H.
+  destruct q; cbn [q_spec_val q_is_inst conv]; destruct (typed c); cbn [conv negb] in *;
+    try discriminate H; split; try reflexivity;
+    try (apply convert_types_ok; exact H); apply convert_types_list; exact H.
+Qed.
+
+(* ---- coercion of plain values: nothing is taken for a path ---- *)
+
+Lemma pfs_nondict v : plain_item v = true -> pfs v = Err MalformedPath.
+Proof. destruct v; try discriminate; reflexivity. Qed.
+
+Lemma plain_plain_item v : plain v = true -> plain_item v = true.
+Proof. destruct v; try discriminate; reflexivity. Qed.
+
+Lemma forallb_plain_item l : forallb plain l = true -> forallb plain_item l = true.
+Proof.
+  induction l as [|v l IH]; cbn [forallb]; [reflexivity|].
+  intros H. apply andb_true_iff in H as [Hv Hl]. rewrite (plain_plain_item v Hv), (IH Hl). reflexivity.
+Qed.
+
+Lemma try_path_plain v : plain_item v = true -> try_path pfs v = Ok (inr v).
+Proof. intros H. unfold try_path. rewrite (pfs_nondict v H). reflexivity. Qed.
+
+Lemma coerce_items_plain l : forallb plain_item l = true -> coerce_items pfs l = Ok (map inr l).
+Proof.
+  induction l as [|v l IH]; cbn [forallb coerce_items map]; [reflexivity|].
+  intros H. apply andb_true_iff in H as [Hv Hl]. rewrite (try_path_plain v Hv), (IH Hl). reflexivity.
+Qed.
+
+Lemma no_inl_inr (l : list pyval) :
+  existsb (fun x : pathterm pyval + pyval => match x with inl _ => true | inr _ => false end) (map inr l) = false.
+Proof. induction l as [|v l IH]; cbn [map existsb orb]; [reflexivity|exact IH]. Qed.
+
+Lemma item_val_inr (l : list pyval) : map (item_val inert0) (map inr l) = l.
+Proof. rewrite map_map. cbn [item_val]. apply map_id. Qed.
+
+Lemma item_arg_inr (l : list pyval) : map (item_arg arg1 ALit (APath 0%N)) (map inr l) = map ALit l.
+Proof. rewrite map_map. reflexivity. Qed.
+
+Notation cval := (coerced_val arg1 ALit (APath 0%N) inert0).
+
+Lemma coerce_plain v : plain v = true -> exists cv, coerce pfs v = Ok cv /\ cval cv = ALit v.
+Proof.
+  intros H. destruct v; try discriminate H; try (eexists; split; reflexivity).
+  - cbn [plain] in H. exists (CSeq false (map inr l)). split.
+    + cbn [coerce]. rewrite (coerce_items_plain l H). reflexivity.
+    + cbn [coerced_val]. rewrite item_val_inr. reflexivity.
+  - cbn [plain] in H. exists (CSeq true (map inr l)). split.
+    + cbn [coerce]. rewrite (coerce_items_plain l H). cbn [bind]. rewrite no_inl_inr. reflexivity.
+    + cbn [coerced_val]. rewrite item_val_inr. reflexivity.
+Qed.
+
+Lemma coerce_plain_list l : forallb plain l = true -> coerce pfs (VList l) = Ok (CSeq false (map inr l)).
+Proof. intros H. cbn [coerce]. rewrite (coerce_items_plain l (forallb_plain_item l H)). reflexivity. Qed.
+
+(* ---- keyword mappings: taken literally unless they look like (escaped) path specs ---- *)
+
+Definition key_clean (s : string) : bool := negb (str_contains esc_code s).
+
+(* the only key of the mapping reads `path`, `path.<m>` or `path.<m>.<m>` in some letter case *)
+Definition single_path_key (items : list (string * pyval)) : bool :=
+  match items with
+  | [(k, _)] =>
+      let toks := lower_tokens k in
+      let n := List.length toks in
+      String.eqb (hd "" toks) "path" && ((1 <=? n)%nat && (n <=? 3)%nat)
+  | _ => false
+  end.
+
+Definition items_ok (items : list (string * pyval)) : bool :=
+  forallb (fun kv => key_clean (fst kv)) items && negb (single_path_key items).
+
+Definition skv (kv : string * pyval) : pyval * pyval := (VStr (fst kv), snd kv).
+
+Lemma unescape_clean items : forall keep moved found,
+  forallb (fun kv => key_clean (fst kv)) items = true ->
+  unescape_keys (map skv items) keep moved found = Ok ((keep ++ map skv items) ++ moved, found).
+Proof.
+  induction items as [|[k v] r IH]; intros keep moved found H; cbn [map skv fst snd unescape_keys].
+  - rewrite app_nil_r. reflexivity.
+  - cbn [forallb fst] in H. apply andb_true_iff in H as [Hk Hr]. unfold key_clean in Hk.
+    apply negb_true_iff in Hk. rewrite Hk. fold (skv (k, v)).
+    change ((VStr k, v)) with (skv (k, v)).
+    rewrite (IH _ moved found Hr). rewrite <- app_assoc. reflexivity.
+Qed.
+
+Lemma pfs_kwd items : items_ok items = true -> pfs (VDict (map skv items)) = Err MalformedPath.
+Proof.
+  unfold items_ok. intros H. apply andb_true_iff in H as [Hc Hs]. apply negb_true_iff in Hs.
+  destruct items as [|[k v] r]; [reflexivity|].
+  unfold path_from_spec, path_from_spec0. cbn [map].
+  change (skv (k, v) :: map skv r) with (map skv ((k, v) :: r)).
+  cbn [skv fst snd]. change ((VStr k, v) :: map skv r) with (map skv ((k, v) :: r)).
+  rewrite (unescape_clean ((k, v) :: r) [] [] false Hc). cbn [bind].
+  destruct r as [|kv2 r2]; [|reflexivity].
+  cbn [map]. cbn [single_path_key] in Hs.
+  destruct (String.eqb (hd "" (lower_tokens k)) "path"); cbn [negb orb andb] in *; [|reflexivity].
+  rewrite Hs. reflexivity.
+Qed.
+
+Lemma coerce_kvs_plain items : forallb plain (map snd items) = true ->
+  coerce_kvs pfs (map skv items) = Ok (map (fun kv => (VStr (fst kv), inr (snd kv))) items).
+Proof.
+  induction items as [|[k v] r IH]; cbn [map forallb coerce_kvs skv fst snd]; [reflexivity|].
+  intros H. apply andb_true_iff in H as [Hv Hr].
+  rewrite (try_path_plain v (plain_plain_item v Hv)). cbn [bind].
+  change (map (fun kv : string * pyval => (VStr (fst kv), snd kv)) r) with (map skv r).
+  rewrite (IH Hr). reflexivity.
+Qed.
+
+Lemma kw_of_lit (items : list (string * pyval)) :
+  kw_of arg1 ALit (APath 0%N) (map (fun kv => (VStr (fst kv), inr (snd kv))) items) = Ok (kmapL items).
+Proof.
+  induction items as [|[k v] r IH]; cbn [map kw_of fst snd]; [reflexivity|].
+  rewrite IH. reflexivity.
+Qed.
+
+Lemma coerce_kwd items : items_ok items = true -> forallb plain (map snd items) = true ->
+  coerce pfs (kwd items) = Ok (CDict (map (fun kv => (VStr (fst kv), inr (snd kv))) items)).
+Proof.
+  intros Hok Hpl. unfold kwd. change (fun kv : string * pyval => (VStr (fst kv), snd kv)) with skv.
+  unfold coerce. rewrite (pfs_kwd items Hok), (coerce_kvs_plain items Hpl). reflexivity.
 Qed.
